@@ -189,7 +189,7 @@ func c14Specs(thorough bool) []string {
 func TestC14(t *testing.T) {
 	r := NewReporter(t)
 	defer r.Done()
-	r.Rule("spec strings enumerated from the documented grammar and near misses; a spec is distinct by its text; every spec also decoded over a value that already holds one of 4 earlier ranges; probes per accepted spec: borders +-1, network, broadcast, midpoint, far outside, in 16-byte and (for mapped v4) 4-byte form; thorough: every address of every v4 block /20../32 plus a margin; the grammar space: every string of <= 6 (thorough 8) characters over \"109.:/-f \" and every sequence of <= 4 (thorough 6) tokens over 18 tokens (numbers at the limits, separators, hex groups, whole addresses), accept/reject and border membership against the reference")
+	r.Rule("spec strings enumerated from the documented grammar and near misses; a spec is distinct by its text; every spec also decoded over a value that already holds one of 4 earlier ranges, and over a copy of a value returned by ParseIPRange; probes per accepted spec: borders +-1, network, broadcast, midpoint, far outside, in 16-byte and (for mapped v4) 4-byte form; thorough: every address of every v4 block /20../32 plus a margin; the grammar space: every string of <= 6 (thorough 8) characters over \"109.:/-f \" and every sequence of <= 4 (thorough 6) tokens over 18 tokens (numbers at the limits, separators, hex groups, whole addresses), accept/reject and border membership against the reference")
 	specs := c14Specs(r.Thorough())
 	one := big.NewInt(1)
 	for i, s := range specs {
@@ -241,6 +241,43 @@ func TestC14(t *testing.T) {
 						bad = true
 						r.Outcome("reuse-contains-mismatch")
 						r.Violation("C14:unmarshal-over-previous:contains", sprintf("UnmarshalText(%q) on a value that already holds %q: probe %s reference=%v Contains=%v", s, prior, ip, ref.contains(x), v.Contains(ip)), map[string]any{"spec": s, "previous": prior, "probe": ip.String()})
+					}
+				}
+			}
+			if bad {
+				break
+			}
+		}
+		// ... and over receivers that were not produced by UnmarshalText: a copy of the value returned by ParseIPRange
+		// (whose bounds may share storage)
+		for _, prior := range []string{"192.168.1.10", "10.0.0.0/8", "::1", "1.2.3.4-1.2.3.9"} {
+			orig, err := iprange.ParseIPRange(prior)
+			if err != nil {
+				break
+			}
+			cp := *orig
+			err2 := cp.UnmarshalText([]byte(s))
+			r.Transition(1)
+			if (err2 == nil) != refOK {
+				r.Outcome("reuse-accept-mismatch")
+				r.Violation("C14:unmarshal-over-parsed:accept", sprintf("UnmarshalText(%q) on a copy of ParseIPRange(%q): err=%v, reference accept=%v", s, prior, err2, refOK), map[string]any{"spec": s, "previous": prior})
+				break
+			}
+			pref, _ := refParse(prior)
+			bad := false
+			probes := []*big.Int{pref.lo, pref.hi, new(big.Int).Sub(pref.lo, one), new(big.Int).Add(pref.hi, one)}
+			if refOK {
+				probes = append(probes, ref.lo, ref.hi, new(big.Int).Sub(ref.lo, one), new(big.Int).Add(ref.hi, one), new(big.Int).Rsh(new(big.Int).Add(ref.lo, ref.hi), 1))
+			}
+			for _, x := range probes {
+				if x.Sign() < 0 || x.Cmp(max128) > 0 || bad {
+					continue
+				}
+				for _, ip := range ipForms(x) {
+					if refOK && cp.Contains(ip) != ref.contains(x) && !bad {
+						bad = true
+						r.Outcome("reuse-contains-mismatch")
+						r.Violation("C14:unmarshal-over-parsed:contains", sprintf("UnmarshalText(%q) on a copy of ParseIPRange(%q): probe %s reference=%v Contains=%v", s, prior, ip, ref.contains(x), cp.Contains(ip)), map[string]any{"spec": s, "previous": prior, "probe": ip.String()})
 					}
 				}
 			}
